@@ -13,6 +13,7 @@
 #include "ephemeralnet/core/Node.hpp"
 #include "ephemeralnet/daemon/ControlPlane.hpp"
 #include "ephemeralnet/crypto/ChaCha20.hpp"
+#include "ephemeralnet/crypto/HmacSha256.hpp"
 #include "ephemeralnet/protocol/Manifest.hpp"
 #include "ephemeralnet/protocol/Message.hpp"
 
@@ -51,7 +52,34 @@ struct Driver {
     std::string dir;
     bool stopped = false;
     std::map<long, std::vector<std::uint8_t>> last_cipher;
-    std::string own_manifest;   // manifest of chunk 9 stored by the node itself   // ciphertext matching the last manifest made for chunk c
+    std::string own_manifest;   // manifest of chunk 9 stored by the node itself
+    std::uint16_t tport = 0;    // the node's transport listener (pre-handshake inputs)
+
+    // structurally hostile encodings: valid ANNOUNCE / CHUNK / REQUEST encodings whose 32-bit words are replaced by
+    // extreme values, singly and in pairs (pairs of 0x80000000 make length sums wrap modulo 2^32)
+    std::vector<std::vector<std::uint8_t>> crafted_;
+    const std::vector<std::vector<std::uint8_t>>& crafted() {
+        if (!crafted_.empty()) return crafted_;
+        std::vector<std::vector<std::uint8_t>> bases;
+        { protocol::AnnouncePayload ap{}; ap.chunk_id = cid(3); ap.peer_id = pid(5); ap.endpoint = "127.0.0.1:2001"; ap.ttl = std::chrono::seconds(60);
+          ap.manifest_uri = manifest_uri(3, "ok"); ap.assigned_shards = {1, 2};
+          for (std::uint8_t v : {std::uint8_t{4}, std::uint8_t{2}}) { protocol::Message m{}; m.version = v; m.type = protocol::MessageType::Announce; m.payload = ap; bases.push_back(protocol::encode(m)); } }
+        { protocol::ChunkPayload cp{}; cp.chunk_id = cid(3); cp.data = std::vector<std::uint8_t>(40, 7); cp.ttl = std::chrono::seconds(60);
+          protocol::Message m{}; m.type = protocol::MessageType::Chunk; m.payload = cp; bases.push_back(protocol::encode(m)); }
+        { protocol::Message m{}; m.type = protocol::MessageType::Request; m.payload = protocol::RequestPayload{cid(3), pid(5)}; bases.push_back(protocol::encode(m)); }
+        const std::uint32_t vals[] = {0x80000000u, 0xFFFFFFFFu, 0x7FFFFFFFu, 0xFFFFFFF0u, 0x00100001u};
+        auto put = [](std::vector<std::uint8_t>& b, size_t off, std::uint32_t v) { if (off + 4 <= b.size()) { b[off] = v >> 24; b[off + 1] = v >> 16; b[off + 2] = v >> 8; b[off + 3] = v; } };
+        for (auto& base : bases) {
+            const size_t words = std::min<size_t>(24, (base.size() - 2) / 4);
+            for (size_t i = 0; i < words; ++i) for (auto v : vals) { auto b = base; put(b, 2 + 4 * i, v); crafted_.push_back(b); }
+            for (size_t i = 0; i < std::min<size_t>(words, 10); ++i) for (size_t j = i + 1; j < std::min<size_t>(words, 10); ++j) {
+                auto b = base; put(b, 2 + 4 * i, 0x80000000u); put(b, 2 + 4 * j, 0x80000000u); crafted_.push_back(b);
+                auto b2 = base; put(b2, 2 + 4 * i, 0xFFFFFFFFu); put(b2, 2 + 4 * j, 0x00000002u); crafted_.push_back(b2);
+            }
+            for (size_t cut : {size_t{1}, size_t{2}, size_t{3}, base.size() / 2, base.size() - 1}) crafted_.push_back(std::vector<std::uint8_t>(base.begin(), base.begin() + cut));
+        }
+        return crafted_;
+    }   // ciphertext matching the last manifest made for chunk c
 
     static std::uint16_t free_port() {
         int s = ::socket(AF_INET, SOCK_STREAM, 0);
@@ -193,6 +221,7 @@ struct Driver {
             a = std::make_unique<Node>(pid(0), cfg);
             Config bc = cfg; bc.identity_seed = 0x4321u; b = std::make_unique<Node>(pid(40), bc);
             own_manifest = protocol::encode_manifest(a->store_chunk(cid(9), std::vector<std::uint8_t>(100000, 0x5a), std::chrono::seconds(3600)));
+            a->start_transport(0); tport = a->transport_port(); crafted_.clear();
             stopped = false;
             server = std::make_unique<daemon::ControlServer>(*a, node_mutex, [this] { stopped = true; });
             for (int i = 0; i < 20; ++i) { port = free_port(); try { server->start("127.0.0.1", port); break; } catch (const std::exception&) {} }
@@ -250,6 +279,33 @@ struct Driver {
             auto r = control(req);
             out = r.rfind("STATUS:OK", 0) == 0 ? "handled" : r.rfind("STATUS:ERROR", 0) == 0 ? "error" : r.empty() ? "noresp" : "other";
             e.i("c", ch).s("m", cls);
+        } else if (c.op == "wire") {
+            // a validly MACed frame whose body is a structurally hostile encoding
+            const auto& cr = crafted(); const auto& body = cr[static_cast<size_t>(c.i("k", 0)) % cr.size()];
+            ensure_stub(p);
+            auto key = a->session_key(pid(p));
+            auto mac = crypto::HmacSha256::compute(std::span<const std::uint8_t>(key->data(), key->size()), std::span<const std::uint8_t>(body));
+            std::vector<std::uint8_t> bytes = body; bytes.insert(bytes.end(), mac.begin(), mac.end());
+            out = deliver(p, bytes, sock, exc);
+            e.i("k", c.i("k", 0)).i("n", static_cast<long long>(cr.size()));
+        } else if (c.op == "prehs") {
+            // a stranger: TCP connect to the transport listener, 32 identity bytes, then one length-prefixed unauthenticated frame
+            const auto& cr = crafted(); const auto& body = cr[static_cast<size_t>(c.i("k", 0)) % cr.size()];
+            int sck = ::socket(AF_INET, SOCK_STREAM, 0);
+            sockaddr_in ad{}; ad.sin_family = AF_INET; ad.sin_addr.s_addr = htonl(INADDR_LOOPBACK); ad.sin_port = htons(tport);
+            out = "connect-failed";
+            if (::connect(sck, reinterpret_cast<sockaddr*>(&ad), sizeof ad) == 0) {
+                auto ident = pid(60 + c.i("k", 0) % 30);
+                std::vector<std::uint8_t> buf(ident.begin(), ident.end());
+                std::uint32_t len = static_cast<std::uint32_t>(c.i("lenoverride", static_cast<long long>(body.size())));
+                buf.push_back(len >> 24); buf.push_back(len >> 16); buf.push_back(len >> 8); buf.push_back(len);
+                buf.insert(buf.end(), body.begin(), body.end());
+                ::send(sck, buf.data(), buf.size(), MSG_NOSIGNAL);
+                pollfd pf{sck, POLLIN | POLLHUP, 0}; poll(&pf, 1, 300);    // the listener closes (or answers) when it has judged the frame
+                out = "sent";
+            }
+            ::close(sck);
+            e.i("k", c.i("k", 0));
         } else if (c.op == "ctlabort") {
             // a control client that asks for a streamed FETCH (large response) and resets the connection at once
             int sck = ::socket(AF_INET, SOCK_STREAM, 0);
